@@ -336,6 +336,30 @@ func (expr Expression) variablesUsed(acc map[string]struct{}) {
 	case ExpressionTypeTypeCast:
 		expr.TypeCast.Expression.variablesUsed(acc)
 		return
+	case ExpressionTypeCoalesce:
+		for _, arg := range expr.Coalesce.Arguments {
+			arg.variablesUsed(acc)
+		}
+		return
+	case ExpressionTypeTuple:
+		for _, arg := range expr.Tuple.Arguments {
+			arg.variablesUsed(acc)
+		}
+		return
+	case ExpressionTypeObjectFieldAccess:
+		expr.ObjectFieldAccess.Object.variablesUsed(acc)
+		return
+	case ExpressionTypeQueryExpression:
+		// Variables of the outer record used inside the subquery.
+		(&Transformers{
+			ExpressionTransformer: func(inner Expression) Expression {
+				if inner.ExpressionType == ExpressionTypeVariable {
+					acc[inner.Variable.Name] = struct{}{}
+				}
+				return inner
+			},
+		}).TransformNode(expr.QueryExpression.Source)
+		return
 	}
 
 	panic("unexhaustive expression type match")
